@@ -10,8 +10,15 @@ RULE = ("for a range of scikit-learn estimators (1-NN, 3-NN, logistic regression
         "scaler+PCA+logistic pipeline, a QuantileTransformer+1-NN pipeline that warns (UserWarning) on every subset smaller than the full set; a QuantileTransformer pipeline that emits UserWarnings on small coalitions for the scoring loops) x {accuracy on 3 classes, accuracy with a training class absent from the validation labels (null score exactly 0), ROC-AUC on binary labels} x EVERY subset of 6 training rows quick / 8 thorough (empty, single-row, "
         "single-class, too small included): (1) the raw outcome class of fit+predict+metric is recorded under the harness's own try/except, fed to the Lean model "
         "of the two handler layers (Outcome.layer1/caught) and the predicted value / raise-or-not is compared with the real utility call; (2) the real call must "
-        "return a finite float and never raise; (3) bruteforce and montecarlo over the same data return finite vectors. Non-trivial = the subset is degenerate "
-        "(raw outcome is not a plain score) or mixes classes; distinct = distinct (estimator, metric, subset).")
+        "return a finite float and never raise; (3) bruteforce and montecarlo over the same data return finite vectors; (4) EVERY subset is evaluated a second "
+        "time WITHOUT a supplied null score (null_score=None, or the keyword left out altogether - the first step of any marginal-contribution walk a caller "
+        "writes by hand): no exception may escape, the score is finite and equals the raw score of an independently fitted model when the subset can be scored, "
+        "otherwise the utility's own fallback computed here BY DEFINITION with fractions (the least metric value of a constant prediction over the classes that "
+        "occur in the subset: accuracy = min_c #{validation label = c}/#validation rows, ROC-AUC of a constant ranking = 1/2; for the EMPTY subset, which has no "
+        "class to predict, the default score 0). The Lean model of the handler layers covers the supplied-null-score path only; for (4) it is fed the "
+        "by-definition fallback as its null value, and the accuracy fallback is additionally compared with Ds.Util.accNull on the subset's classes (none on the "
+        "empty subset). Non-trivial = the subset is degenerate (raw outcome is not a plain score) or mixes classes; distinct = distinct (estimator, metric, "
+        "subset, null score supplied or not).")
 
 
 def estimators(q):
@@ -69,6 +76,21 @@ def raw_outcome(model, metric_kind, Xs, ys, Xv, yv, classes):
             return "Other:" + type(e).__name__
 
 
+def fallback_null(metric_kind, ys, yv):
+    """by definition: the score the utility falls back to on a subset it cannot fit/score when the caller supplied NO null score = the least metric
+    value of a constant prediction over the classes occurring in the subset; None when the subset has no class at all (the empty subset)"""
+    classes = sorted(set(int(v) for v in ys))
+    if not classes:
+        return None
+    if metric_kind == "accuracy":
+        yvl = [int(v) for v in yv]
+        return min(Fraction(sum(1 for v in yvl if v == cl), len(yvl)) for cl in classes)
+    return Fraction(1, 2)       # a constant ranking ties every (positive, negative) pair
+
+
+DEFAULT_SCORE = 0.0             # UtilityResult.score when not even a fallback can be computed: finite, documented default
+
+
 def run(ctx):
     I = load_impl(ctx)
     U = I["utility"]
@@ -97,10 +119,11 @@ def run(ctx):
             subsets = [s for k in range(n_rows + 1) for s in itertools.combinations(range(n_rows), k)]
             if not q and len(subsets) > 160 and name not in ("knn1", "logreg", "tree"):
                 subsets = subsets[:40] + rng.sample(subsets[40:], 120)
+            raws = {}
             for s in subsets:
                 idx = list(s)
                 Xs, ys = X[idx], y[idx]
-                raw = raw_outcome(est, metric_kind, Xs, ys, Xv, yv, None)
+                raw = raws[s] = raw_outcome(est, metric_kind, Xs, ys, Xv, yv, None)
                 case = dict(estimator=name, metric=metric_kind, variant=variant, null=null, subset=idx, y_subset=ys.tolist(), X_seed=ctx.seed + 17)
                 try:
                     with warnings.catch_warnings():
@@ -135,6 +158,53 @@ def run(ctx):
                     if m["layer2"] == "raise" or abs(float(Fraction(m["layer2"])) - got) > 1e-5:
                         ctx.mismatch("model of the handler layers disagrees with the implementation", case, impl=got, model=m, failing_input=False,
                                      broken="corr:Ds.Outcome.layer1/caught / theorems C15_*")
+            # (4) the same subsets WITHOUT a supplied null score: "never raises, finite" is unconditional
+            for s in subsets:
+                idx = list(s)
+                Xs, ys = X[idx], y[idx]
+                raw = raws[s]
+                how = "null_score=None" if (len(idx) + len(name)) % 2 == 0 else "keyword omitted"
+                case = dict(estimator=name, metric=metric_kind, variant=variant, null="NOT SUPPLIED (%s)" % how, subset=idx, y_subset=ys.tolist(),
+                            y_validation=yv.tolist(), X_seed=ctx.seed + 17)
+                try:
+                    with warnings.catch_warnings():
+                        warnings.simplefilter("ignore")
+                        res = util(Xs, ys, Xv, yv, null_score=None) if how == "null_score=None" else util(Xs, ys, Xv, yv)
+                        got = float(res.score)
+                    raised = None
+                except Exception as e:  # noqa
+                    got = None
+                    raised = exc_name(e) + ": " + str(e)[:120]
+                degenerate = isinstance(raw, str) or len(set(ys.tolist())) < c
+                fb = fallback_null(metric_kind, ys, yv)
+                ctx.case((name, metric_kind, variant, tuple(idx), "no-null"), nontrivial=degenerate or len(set(ys.tolist())) >= 2,
+                         sample=(dict(case, raw=raw, got=got, fallback=(str(fb) if fb is not None else None)) if isinstance(raw, str) and len(idx) in (0, 2) else None),
+                         metric=metric_kind, raw="no-null/" + (raw if isinstance(raw, str) else "score").split(":")[0])
+                if raised is not None:
+                    ctx.mismatch("utility raised on a subset when no null score is supplied (it can be evaluated on the full training set)", dict(case, raw=raw),
+                                 impl=raised, spec="finite score, no exception (raw score | fallback null score of the subset's classes | default 0.0)")
+                    continue
+                if got is None or not math.isfinite(got):
+                    ctx.mismatch("utility returned a non-finite score when no null score is supplied", dict(case, raw=raw), impl=got, spec="finite")
+                    continue
+                if isinstance(raw, str) and raw.startswith("Other"):
+                    continue
+                want = float(fb) if (isinstance(raw, str) and fb is not None) else (DEFAULT_SCORE if isinstance(raw, str) else raw)
+                if abs(got - want) > 1e-9:
+                    ctx.mismatch("utility value without a supplied null score differs from (raw score | least constant-prediction score over the subset's "
+                                 "classes | 0.0 on the class-less empty subset)", dict(case, raw=raw), impl=got, spec=want)
+                    continue
+                if ctx.driver is not None and isinstance(raw, str) and (len(idx) == 0 or rng.random() < 0.25):
+                    m = ctx.model({"op": "handlers", "outcome": raw, "null": str(fb if fb is not None else Fraction(0))})["ok"]
+                    bad = m["layer2"] == "raise" or abs(float(Fraction(m["layer2"])) - got) > 1e-9
+                    if metric_kind == "accuracy":
+                        mn = ctx.model({"op": "util", "classes": sorted(set(int(v) for v in ys)), "yTest": [int(v) for v in yv]})["ok"]["accNull"]
+                        bad = bad or (mn is None) != (fb is None) or (mn is not None and Fraction(mn) != fb)
+                        m = dict(m, accNull=mn)
+                    if bad:
+                        ctx.mismatch("model (handler layers fed the by-definition fallback / Ds.Util.accNull of the subset's classes) disagrees with the "
+                                     "implementation when no null score is supplied", dict(case, raw=raw), impl=got, model=m, failing_input=False,
+                                     broken="corr:Ds.Outcome.layer1/caught, Ds.Util.accNull")
             if ctx.elapsed() > (400 if q else 1800):
                 break
     ctx.extra["raw_outcome_kinds"] = {"%s/%s/%s" % k: v for k, v in sorted(outcomes.items())}
